@@ -178,3 +178,122 @@ func genDisplace(r *rng) string {
 		return fmt.Sprintf("PAIR displace %d ## %s ## %s", moved.pid, base, v.encode())
 	}
 }
+
+// debugging (C12): chains in which every provider has a unique name, some provider takes
+// *Debugging and Reorder is sprinkled; the observation carries what Debugging.NamesIncluded said.
+// dbgneutral (C12): base without any *Debugging parameter, variant with one added.
+// regroup (C13): the same provider list built through nested Sequences / Append / collection-
+// level annotations.  unused (C13): variant = base with an Unused parameter added.
+func init() {
+	streams["debugging"] = &stream{gen: func(r *rng) string { return genDebugging(r).encode() }, run: runChain}
+	streams["dbgneutral"] = &stream{gen: genDbgNeutral, run: runPair}
+	streams["regroup"] = &stream{gen: func(r *rng) string {
+		c := genChain(r, chainOpts{})
+		c.regroup = 1 + r.intn(1000000)
+		return c.encode()
+	}, run: runChain}
+	streams["unused"] = &stream{gen: genUnusedPair, run: runPair}
+}
+
+func stripType(l []int, t int) []int {
+	var out []int
+	for _, x := range l {
+		if x != t {
+			out = append(out, x)
+		}
+	}
+	return out
+}
+
+func genDebugging(r *rng) *ccase {
+	c := genReorderChain(r)
+	dbg := tcOf(pDebug)
+	for _, p := range c.provs {
+		p.origin = 100 + p.pid
+		p.ins = stripType(p.ins, dbg)
+	}
+	// one to two providers ask for *Debugging
+	for k := 1 + r.intn(2); k > 0; k-- {
+		p := c.provs[r.intn(len(c.provs))]
+		if p.shape != 1 {
+			p.ins = append(append([]int{}, p.ins...), dbg)
+		}
+	}
+	last := c.provs[len(c.provs)-1]
+	if last.shape == 2 && r.chance(1, 2) && !containsInt(last.ins, dbg) {
+		last.ins = append(append([]int{}, last.ins...), dbg)
+	}
+	return c
+}
+
+func genDbgNeutral(r *rng) string {
+	for {
+		c := genChain(r, chainOpts{})
+		dbg := tcOf(pDebug)
+		var cands []int
+		for i, p := range c.provs {
+			p.ins = stripType(p.ins, dbg)
+			if p.shape != 1 {
+				cands = append(cands, i)
+			}
+		}
+		if len(cands) == 0 {
+			continue
+		}
+		base := c.encode()
+		v := parseChain(base)
+		i := cands[r.intn(len(cands))]
+		v.provs[i].ins = append(append([]int{}, v.provs[i].ins...), dbg)
+		return fmt.Sprintf("PAIR dbgneutral %d ## %s ## %s", v.provs[i].pid, base, v.encode())
+	}
+}
+
+func genUnusedPair(r *rng) string {
+	for {
+		c := genChain(r, chainOpts{})
+		un := tcOf(pUnused)
+		for _, p := range c.provs {
+			p.ins = stripType(p.ins, un)
+			p.outs = stripType(p.outs, un)
+			p.innerOuts = stripType(p.innerOuts, un)
+		}
+		c.invIns, c.initIns = stripType(c.invIns, un), stripType(c.initIns, un)
+		base := c.encode()
+		v := parseChain(base)
+		where := r.intn(4)
+		switch where {
+		case 0: // final function
+			// the final function is the last provider not marked NonFinal
+			var last *cprovider
+			for _, p := range v.provs {
+				if p.annots&aNonFinal == 0 {
+					last = p
+				}
+			}
+			if last == nil || last.shape != 2 {
+				continue
+			}
+			last.ins = append(append([]int{}, last.ins...), un)
+		case 1: // a Required provider
+			var req []int
+			for i, p := range v.provs {
+				if p.annots&aRequired != 0 && p.shape != 1 {
+					req = append(req, i)
+				}
+			}
+			if len(req) == 0 {
+				continue
+			}
+			p := v.provs[req[r.intn(len(req))]]
+			p.ins = append(append([]int{}, p.ins...), un)
+		case 2: // invoke
+			v.invIns = append(append([]int{}, v.invIns...), un)
+		default: // init
+			if !v.hasInit {
+				continue
+			}
+			v.initIns = append(append([]int{}, v.initIns...), un)
+		}
+		return fmt.Sprintf("PAIR unused %d ## %s ## %s", where, base, v.encode())
+	}
+}
